@@ -1,0 +1,18 @@
+//! Hooks for the deterministic-simulation checks kept outside this repository.
+//!
+//! Everything in this module, and every use of it, is compiled only with
+//! `--cfg rten_verif`. Without that flag the crate is unchanged.
+
+/// Summary of one constant (weight) of a loaded model.
+#[derive(Clone, Debug, PartialEq)]
+pub struct ConstSummary {
+    /// Name of the constant node, if it has one.
+    pub name: Option<String>,
+    /// Nesting depth of the graph that owns the constant (0 = main graph).
+    pub depth: usize,
+    pub shape: Vec<usize>,
+    /// Size of one element in bytes.
+    pub elem_size: usize,
+    /// Number of elements in the storage that backs the constant.
+    pub storage_len: usize,
+}
